@@ -281,12 +281,12 @@ def cosim(ctx, native):
         for op, wrap in (("tostr", "%s"), ("string_from", "%s"), ("debug", "Dec!(%s)")):
             obs = native["dev"].ask("5 %s %s" % (op, fmt_dec(c, p)))
             if obs != "STR " + wrap % canonical(c, p):
-                raise RuntimeError("%s of (%d, %d): native %r vs canonical %r" % (op, c, p, obs, canonical(c, p)))
+                raise NativeViolation("5 %s %s" % (op, fmt_dec(c, p)), obs, "STR " + wrap % canonical(c, p))
         sj = native["dev"].ask("5 serde_roundtrip %s" % fmt_dec(c, p))
         if sj != 'STR "%s" OK %d %d' % (canonical(c, p), c, p):
-            raise RuntimeError("serde_json round trip of (%d, %d) gives %r" % (c, p, sj))
+            raise NativeViolation("5 serde_roundtrip %s" % fmt_dec(c, p), sj, 'STR "%s" OK %d %d' % (canonical(c, p), c, p))
         rt = parse_native(native["dev"].ask("5 roundtrip %s" % fmt_dec(c, p)))
         if rt != ("OK", c, p):
-            raise RuntimeError("round trip of (%d, %d) gives %r" % (c, p, rt))
+            raise NativeViolation("5 roundtrip %s" % fmt_dec(c, p), rt, ("OK", c, p))
         n += 1
     return n
